@@ -557,6 +557,9 @@ class RemoveLiveChildList(Contract):
         for kind in ("points", "group", "hole", "drillhole-group"):
             for arg in ("live-list", "copy-of-the-list"):
                 yield {"kind": kind, "argument": arg}
+        # the display settings of an object (a data child the object also keeps a handle to)
+        for through in ("workspace", "parent"):
+            yield {"kind": "visual-parameters", "through": through}
 
     def native_check(self, case):
         import gc
@@ -573,6 +576,22 @@ class RemoveLiveChildList(Contract):
         d = tempfile.mkdtemp()
         try:
             path = os.path.join(d, "l.geoh5")
+            if case["kind"] == "visual-parameters":
+                with Workspace.create(path) as ws:
+                    o = Points.create(ws, name="parent", vertices=np.zeros((3, 3)))
+                    vp = o.add_default_visual_parameters()
+                    uid = vp.uid
+                    if case["through"] == "workspace":
+                        ws.remove_entity(vp)
+                    else:
+                        o.remove_children([vp])
+                    del vp
+                    gc.collect()
+                    if o.visual_parameters is not None:
+                        return f"after its display settings were removed (through the {case['through']}) the object still hands them out as visual_parameters ({case})"
+                    if case["through"] == "workspace" and ws.get_entity(uid)[0] is not None:
+                        return f"after the display settings were removed the workspace still finds them by identifier ({case})"
+                return None
             with Workspace.create(path) as ws:
                 if case["kind"] == "points":
                     parent = Points.create(ws, name="parent", vertices=np.zeros((3, 3)))
